@@ -136,6 +136,13 @@ SliceIndices(n, sl) ==          \* sequence of 0-based indices selected by slice
 
 SliceOk(sl) == /\ sl.lo.k \in {"none", "int"} /\ sl.hi.k \in {"none", "int"} /\ sl.st.k \in {"none", "int"}
 
+\* hash(v) raises TypeError: list, dict, set, and a tuple holding (at any depth) such a value -- a tuple can
+\* only reach itself through a mutable container, so the recursion ends
+RECURSIVE Unhashable(_, _)
+Unhashable(heap, v) ==
+  IsRef(v) /\ (\/ heap[v.a].cls \in {"list", "dict", "odict", "set"}
+               \/ heap[v.a].cls = "tuple" /\ \E j \in 1..Len(heap[v.a].items) : Unhashable(heap, heap[v.a].items[j]))
+
 \* cur[arg] including slices; may allocate
 GetItemX(heap, cur, arg) ==
   IF arg.k # "slice" THEN
@@ -144,7 +151,7 @@ GetItemX(heap, cur, arg) ==
         \* lookup fail with TypeError, hashable ones (tuple, frozenset, objects) are simply absent;
         \* sequences, strings and everything else reject any non-integer index with TypeError
         (IF IsRef(cur) /\ heap[cur.a].cls \in {"dict", "odict", "baddict"}
-         THEN (IF heap[arg.a].cls \in {"list", "dict", "odict", "set"} THEN R(heap, Exc("TypeError"))
+         THEN (IF Unhashable(heap, arg) THEN R(heap, Exc("TypeError"))
                ELSE IF HasKey(heap[cur.a].items, arg) THEN R(heap, OutOfModel) ELSE R(heap, Exc("KeyError")))
          ELSE R(heap, Exc("TypeError")))
      ELSE IF IsRef(cur) /\ heap[cur.a].cls = "baddict"
